@@ -13,6 +13,7 @@ LEVEL = 'other'
 HJ = 'athlib/highjump.py'
 COMP = 'HighJumpCompetition'
 JUMPER = 'Jumper'
+GUARD_NAME = ['_set_jump_array']
 MUTATORS = ['add_jumper', 'set_bar_height', 'cleared', 'failed', 'passed', 'retired']
 TRIALS = ['cleared', 'failed', 'passed', 'retired']
 
@@ -178,6 +179,15 @@ def run(ctx, repo):
 
     # ---------------- R5 guard order
     jm = {f.name: f for f in jumper.body if isinstance(f, ast.FunctionDef)}
+    # the admission guard is found by its role, not its name: the method with a raise that every trial method calls on self
+    common = None
+    for t_ in ('cleared', 'failed', 'passed', 'retired'):
+        if t_ in jm:
+            cs = {c.func.attr for c in ast.walk(jm[t_]) if isinstance(c, ast.Call) and isinstance(c.func, ast.Attribute)
+                  and isinstance(c.func.value, ast.Name) and c.func.value.id == 'self' and c.func.attr in jm
+                  and any(isinstance(x, ast.Raise) for x in ast.walk(jm[c.func.attr]))}
+            common = cs if common is None else common & cs
+    GUARD_NAME[0] = sorted(common)[0] if common else '_set_jump_array'
     for t in TRIALS:
         f = methods.get(t)
         if f is None or t not in jm:
@@ -210,7 +220,7 @@ def run(ctx, repo):
         first_store = None
         guard_line = None
         for st in jf.body:
-            if guard_line is None and any(isinstance(c, ast.Call) and call_name(c) == '_set_jump_array' for c in ast.walk(st)):
+            if guard_line is None and any(isinstance(c, ast.Call) and call_name(c) == GUARD_NAME[0] for c in ast.walk(st)):
                 guard_line = st.lineno
             if first_store is None and isinstance(st, (ast.Assign, ast.AugAssign)):
                 first_store = st.lineno
@@ -218,12 +228,12 @@ def run(ctx, repo):
             ctx.ok('R5', '%s.%s calls the admission guard before its first store' % (JUMPER, t))
         else:
             ctx.finding('R5', '%s::%s.%s::admission guard before stores' % (HJ, JUMPER, t), HJ, jf.lineno,
-                        '%s.%s does not call _set_jump_array before writing the card/flags' % (JUMPER, t))
+                        '%s.%s does not call %s before writing the card/flags' % (JUMPER, t, GUARD_NAME[0]))
 
     # ---------------- R6 flags and limits
-    guard = jm.get('_set_jump_array')
+    guard = jm.get(GUARD_NAME[0])
     if guard is None:
-        raise AnalysisError('anchor vanished: Jumper._set_jump_array')
+        raise AnalysisError('anchor vanished: the admission guard of Jumper (the method with a raise that every trial method calls)')
     first_if = [st for st in guard.body if isinstance(st, ast.If)]
     flags_read = set()
     if first_if and any(isinstance(x, ast.Raise) for x in first_if[0].body):
@@ -237,9 +247,9 @@ def run(ctx, repo):
     # the flag test must come before the first card write (append)
     for need in ('eliminated', 'dismissed'):
         if need in flags_sufficient:
-            ctx.ok('R6', '_set_jump_array refuses when %s' % need)
+            ctx.ok('R6', '%s refuses when %s' % (GUARD_NAME[0], need))
         else:
-            ctx.finding('R6', '%s::%s._set_jump_array::%s not sufficient to refuse' % (HJ, JUMPER, need), HJ, guard.lineno,
+            ctx.finding('R6', '%s::%s.%s::%s not sufficient to refuse' % (HJ, JUMPER, GUARD_NAME[0], need), HJ, guard.lineno,
                         'the admission guard no longer refuses on the flag %r alone: an athlete who is %s could take '
                         'another trial' % (need, 'eliminated or retired' if need == 'eliminated' else 'done at this height'))
     want_flags = {'cleared': [('dismissed', True)], 'passed': [('dismissed', True)],
@@ -543,7 +553,7 @@ def check_limit_test(ctx, guard):
     tests = [st for st in guard.body if isinstance(st, ast.If) and 'round_lim' in ast.unparse(st.test)
              and any(isinstance(x, ast.Raise) for x in st.body)]
     if not tests:
-        ctx.finding('R6', '%s::%s._set_jump_array::attempt limit guard' % (HJ, JUMPER), HJ, guard.lineno,
+        ctx.finding('R6', '%s::%s.%s::attempt limit guard' % (HJ, JUMPER, GUARD_NAME[0]), HJ, guard.lineno,
                     'no guard refuses an attempt beyond round_lim')
         return
     t = tests[0].test
@@ -556,7 +566,7 @@ def check_limit_test(ctx, guard):
         if bool(v) != (L >= R):
             bad.append((L, R, bool(v)))
     if bad:
-        ctx.finding('R6', '%s::%s._set_jump_array::attempt limit off by one' % (HJ, JUMPER), HJ, tests[0].lineno,
+        ctx.finding('R6', '%s::%s.%s::attempt limit off by one' % (HJ, JUMPER, GUARD_NAME[0]), HJ, tests[0].lineno,
                     'the attempts guard %s does not refuse exactly when the card entry already holds round_lim trials '
                     '(e.g. len=%d, limit=%d gives %s)' % (unparse(t), bad[0][0], bad[0][1], bad[0][2]), bad[:3])
     else:
